@@ -879,6 +879,8 @@ def hostile_script(rng, logdir):
             op['acts'] = list(op['acts']) + [['remote', 9000 + nreq[0], rng.choice(['t', '', 'caf\u00e9', 7, '%s']),
                                               rng.choice(['data', '', 42, -1, 2.5, True, 'caf\u00e9 \u2603', '%(x)s 100%',
                                                           ['a', 1], {'k': 'v'}, 'x' * 70000])]]
+        if rng.random() < 0.06:
+            op['acts'] = list(op['acts']) + [['signal', rng.choice([12, 12, 17])]]   # SIGUSR2 (reopen every log), SIGCHLD
         if rng.random() < 0.04:
             op['acts'] = list(op['acts']) + [['jobstop', rng.randrange(4)]]     # SIGSTOP to a child: it is not dead
         if rng.random() < 0.05:
